@@ -122,6 +122,18 @@ void check_ops(vh::Ctx& c, Rng& r, int d, const Vec& a, const Vec& b, double s, 
     double nv = std::nextafter(a[k], r.coin() ? INFINITY : -INFINITY);
     C[k] = nv;
     if ((A == C) || (C == A)) c.violation("C01:eq:one-ulp-difference-ignored", vh::fmt("[%s] d=%d component %d: %.17g vs %.17g compare equal", cls, d, k, a[k], nv));
+    {  // +0.0 and -0.0 are equal components: vectors differing only in the sign of zeros are equal
+      Vec z = a; int zeros = 0;
+      for (auto& x : z) if (x == 0) { x = std::signbit(x) ? 0.0 : -0.0; zeros++; }
+      if (zeros) {
+        SU_vector Z = make(z);
+        c.count("op.equality_signed_zero");
+        if (!(A == Z) || !(Z == A)) c.violation("C01:eq:signed-zeros-compare-unequal", vh::fmt("[%s] d=%d %d zero components with the opposite sign of zero", cls, d, zeros));
+        // the same through an operation that produces -0.0: negating twice / transposing a vector whose antisymmetric part is 0
+        SU_vector N = -SU_vector(-A);
+        if (!(N == A)) c.violation("C01:eq:signed-zeros-compare-unequal", vh::fmt("[%s] d=%d -(-a) != a", cls, d));
+      }
+    }
     bool same = (a == b);
     if ((A == B) != same) c.violation("C01:eq:wrong-answer", vh::fmt("[%s] d=%d a==b is %d, expected %d", cls, d, (int)(A == B), (int)same));
     // different dimension, same leading components
